@@ -36,7 +36,11 @@ if [ "$ID" = "C18" ]; then
   fi
   sed "s#=> /repo#=> $SCR#" go.mod > .scratch/c18$TAG.mod
   cp go.sum .scratch/c18$TAG.sum
-  if ! go build -race -tags "verif verifglobals" -modfile=.scratch/c18$TAG.mod -o $BIN ./cmd/vcheck 2>bin/build.err; then
+  # the verifhook event counters are atomics; the race detector treats atomic operations as
+  # synchronisation, so counting events inside the library could order two goroutines that the
+  # library itself leaves unordered and hide a race.  The C18 build therefore leaves the verif
+  # tag OFF (hooks compiled out) and only enables the generated globals digests.
+  if ! go build -race -tags "verifglobals" -modfile=.scratch/c18$TAG.mod -o $BIN ./cmd/vcheck 2>bin/build.err; then
     cat bin/build.err; echo "HARNESS-ERROR property=$ID build failed (library does not compile?)"; exit 2
   fi
   rm -rf "$SCR"
